@@ -54,13 +54,13 @@ type Config struct {
 	Alphabet  []Op     `json:"alphabet"`
 	InitTabs  []Tab    `json:"init_tabs"`
 	ParentTab Tab      `json:"parent_tab"`
-	Sample    int      `json:"sample"`     // number of random program tuples (mode sample)
+	Sample    int      `json:"sample"` // number of random program tuples (mode sample)
 	Seed      int64    `json:"seed"`
 	Shard     int      `json:"shard"`
 	NShards   int      `json:"nshards"`
-	MaxSched  int      `json:"max_sched"`  // cap on schedules per program tuple (0 = exhaustive)
-	Rounds    int      `json:"rounds"`     // free mode: rounds per program tuple
-	Progs     [][][]Op `json:"progs"`      // explicit program tuples (optional)
+	MaxSched  int      `json:"max_sched"` // cap on schedules per program tuple (0 = exhaustive)
+	Rounds    int      `json:"rounds"`    // free mode: rounds per program tuple
+	Progs     [][][]Op `json:"progs"`     // explicit program tuples (optional)
 }
 
 type Line struct {
